@@ -1041,7 +1041,7 @@ def register_all(M):
     def slice_join(c, m, a):
         parts = as_items(a[0])
         sep = deref(a[1])
-        if parts and isinstance(deref(parts[0]), (Str, StringBuf)):
+        if isinstance(sep, (Str, StringBuf)) or (parts and isinstance(deref(parts[0]), (Str, StringBuf))):
             out = []
             for i, p in enumerate(parts):
                 if i:
@@ -1085,7 +1085,7 @@ def register_all(M):
         if isinstance(v, Slice):
             return VecBuf(v.items)
         return v
-    M.add(r"Cow::<.*>::into_owned|<Cow<.*> as ToString>::to_string", cow_into_owned)
+    M.add(r"Cow::<.*>::into_owned|<Cow<.*> as ToString>::to_string|<Cow<str> as Into<String>>::into|<Cow<\[.*\]> as Into<Vec<.*>>>::into", cow_into_owned)
 
     # ---- Option / Result ---------------------------------------------------------------------
     def opt_map(c, m, a):
